@@ -201,9 +201,16 @@ func scopeTarget(shape string, p probe) (target any, input string) {
 }
 
 // sampleValue/sampleText: the "next call" whose result must equal the golden of a fresh coder.
-var sampleValue = map[string]any{"a": []any{1.0, "<x> ", nil}, "b": map[string]any{}}
+// (the int16 members are what the caller functions of the option pool act on: functions left behind by an earlier call show here)
+var sampleValue = map[string]any{"a": []any{1.0, "<x> ", nil}, "b": map[string]any{}, "n": int16(7)}
 
-const sampleText = ` {"a":[1,"<x>",null],"b":{"c":"é"}} `
+const sampleText = ` {"a":[1,"<x>",null],"b":{"c":"\u00e9"},"n":5} `
+
+type sampleTarget struct {
+	A []any          `json:"a"`
+	B map[string]any `json:"b"`
+	N int16          `json:"n"`
+}
 
 func insideWant(base, call *model) *model {
 	m := *base
@@ -361,7 +368,7 @@ func runScope(w *run.W, a *scopeArgs) {
 		})
 		after = observe(d.Options())
 		if callErr == nil && !userPanic && !libPanic && a.Pos == "top" {
-			var x1, x2 any
+			var x1, x2 sampleTarget
 			e1 := json.UnmarshalDecode(d, &x1)
 			e2 := json.UnmarshalDecode(jsontext.NewDecoder(strings.NewReader(sampleText), buildOpts(a.Base)...), &x2)
 			nextGot, nextWant = []byte(fmt.Sprint(x1, e1 == nil)), []byte(fmt.Sprint(x2, e2 == nil))
